@@ -15,6 +15,7 @@ from tradingenv.transmitter import Transmitter
 from tradingenv.events import EventNBBO, EventContractDiscontinued
 from tradingenv.contracts import ETF, ES, FutureChain, Rate, AbstractContract
 from tradingenv.spaces import BoxPortfolio
+from tradingenv.features import Feature
 from tradingenv.broker.fees import BrokerFees
 from tradingenv.broker.broker import EndOfEpisodeError
 from tradingenv import rewards as R
@@ -32,6 +33,20 @@ LOG = dict(scale=0.05, clip=2.0, risk_aversion=0.25)
 
 def T(base, t):
     return base + timedelta(seconds=int(t))
+
+
+class Valuer(Feature):
+    """a user feature that values the account whenever a quote arrives"""
+
+    def __init__(self):
+        Feature.__init__(self, name="verif-valuer", save=False)
+
+    def process_EventNBBO(self, event):
+        if self.broker is not None:
+            try:
+                self.broker.net_liquidation_value(False)
+            except Exception:  # noqa: BLE001 - an unpriceable position: nothing to report
+                pass
 
 
 class World:
@@ -87,10 +102,14 @@ class World:
         self.reward_kind = reward_kind
         reward = {"simple": R.RewardSimpleReturn(), "log": R.LogReturn(**LOG), "pnl": R.RewardPnL(),
                   "logret": R.RewardLogReturn()}[reward_kind]
+        # every other case a user feature values the account on every quote (a valuation marks the account to market; it is
+        # neutral for everything a property speaks of)
+        kw = {"state": [Valuer()]} if (len(cfg["events"]) + cfg["lat"] + cfg["delay"]) % 2 == 1 else {}
         self.env = TradingEnv(action_space=BoxPortfolio(space_contracts, low=-4.0, high=4.0, margin=float(model["thr"]),
-                                                         fractional=bool(model.get("fractional", True))),
+                                                         fractional=bool(model.get("fractional", True)),
+                                                         as_weights=model.get("measure", "weight") == "weight"),
                               reward=reward, transmitter=tr, broker_fees=fees, latency=cfg["lat"],
-                              steps_delay=cfg["delay"], initial_cash=float(model["deposit"]))
+                              steps_delay=cfg["delay"], initial_cash=float(model["deposit"]), **kw)
         self.rewards = []
         self.nlv0 = None
 
